@@ -52,6 +52,13 @@ theorem tombstone_threshold (s : Nat) (hs : 1 ≤ s ∧ s ≤ 8) :
     minTombstone s = 2 ^ (8 * s) - 2 ∧ minTombstone s = tombstone s :=
   ⟨minTombstone_eq s hs, minTombstone_spec s hs⟩
 
+/-- the address helpers of `ReaderAddress for u64`, exactly: `wrapping_add_sized` is the sum modulo
+`2^(8·size)`, `add_sized` is the sum when it is a `size`-byte address and `AddressOverflow` otherwise -/
+theorem address_arithmetic (a len s : Nat) (hs : s ≤ 8) :
+    wrappingAddSized a len s = (a + len) % 2 ^ (8 * s) ∧
+    addSized a len s = (if a + len < 2 ^ (8 * s) then .ok (a + len) else .err .rAddressOverflow) :=
+  ⟨wrappingAddSized_eq a len s hs, addSized_eq a len s hs⟩
+
 /-! ## "Raw iteration exposes every encoded entry unchanged" -/
 
 /-- **Raw round trip.** For every well-formed list `l` (every entry kind of the family and format,
